@@ -104,7 +104,7 @@ def main(run):
     rnd = random.Random(run.shard_seed)
     rec = PathRecorder([WelfordTracker.update.__code__, ExponentialSmoothingTracker.update.__code__])
     wpaths, epaths = set(), set()
-    lengths = [0, 1, 2, 3, 5, 8, 17, 33, 64, 129, 256]
+    lengths = [0, 1, 2, 3, 5, 8, 17, 33, 64, 129, 256, 300]      # (beyond 256: CPython's small-int cache ends there)
     reps = 2 if not thorough else 3
     if thorough:
         lengths += [512, 1024] + ([4096] if run.shard[0] % 4 == 0 else [])
@@ -141,9 +141,15 @@ def main(run):
                         run.violation("empty-stream", f"fresh trackers report N={w.N},{e.N} value {e.get()!r}", {"case": tag})
                     continue
                 for i, v in enumerate(vals):
-                    w.update(v)
+                    if i % 7 == 3:
+                        w.update(value_i=v)          # documented parameter name, passed by keyword
+                    else:
+                        w.update(v)
                     wpaths.add(rec.take())
-                    e.update(v)
+                    if i % 7 == 5:
+                        e.update(value_i=v)
+                    else:
+                        e.update(v)
                     epaths.add(rec.take())
                     if rnd.random() < 0.2:  # reads interleaved with updates are pure
                         _ = (w.var, w.std, w.mean, e.get())
